@@ -1,6 +1,7 @@
 """C14 — declaring and undeclaring variables keeps a valid order and all
 functions."""
 from .. import histprop as H
+from ..viol import Violation, require
 
 ID = 'C14'
 LEVEL = 'exploration'
@@ -67,16 +68,159 @@ def plan(tier, seed):
         specs.append(dict(kind='random', seed=seed * 1000 + s, cfgs=cfgs,
                           examples=1500 if tier == 'thorough' else 400,
                           min_len=6, max_len=40))
+    for api in ('bdd', 'autoref'):
+        specs.append(dict(kind='wide', n=300, seed=seed, api=api))
     specs += H.exhaustive_plan(dict(kind='bdd', nmax=4, init_vars=3),
                                LETTERS, 5 if tier == 'thorough' else 4, seed)
     return specs
 
 
+def _eval(b, u, assignment):
+    """Value of reference u under a total assignment, by walking succ."""
+    neg = u < 0
+    u = abs(u)
+    guard = 0
+    while u != 1:
+        i, v, w = b.succ(u)
+        nxt = w if assignment[b.var_at_level(i)] else v
+        if nxt < 0:
+            neg = not neg
+        u = abs(nxt)
+        guard += 1
+        require(guard < 10 ** 4, 'wide.cycle')
+    return not neg
+
+
+def run_wide(spec, out):
+    """Hundreds of variables: levels far beyond the small integers (the
+    declaration calls compare and index levels)."""
+    import random
+    import itertools
+    import os
+    import dd.autoref as _ar
+    import dd._copy as _copy
+    from .. import fix, inv
+    r = random.Random(f'c14wide:{spec["seed"]}')
+    N = spec['n']
+    case = dict(kind='wide', n=N, seed=spec['seed'], api=spec['api'])
+    names = [f'v{k}' for k in range(N)]
+
+    def bijection(m, want):
+        vs = dict(m.vars)
+        require(vs == {x: l for l, x in enumerate(want)} and
+                dict(m.var_levels) == vs, 'wide.vars', dict(n=len(vs)))
+        for l in (0, 1, len(want) // 2, len(want) - 2, len(want) - 1):
+            require(m.var_at_level(l) == want[l] and
+                    m.level_of_var(want[l]) == l, 'wide.level_maps',
+                    dict(level=l))
+
+    def body():
+        ar = spec['api'] == 'autoref'
+        A = _ar.BDD() if ar else fix.new_bdd([])
+        b = A._bdd if ar else A
+        if ar:
+            b.__class__ = type(fix.new_bdd([]))
+        A.declare(*names)
+        bijection(A, names)
+        inv.check_order(b)
+        ks = [0, 1, 255, 256, 257, 258, N - 1] + r.sample(range(N), 12)
+        for k in ks:
+            # an equal level given as a separately created int
+            lvl = int(str(k))
+            require(A.add_var(names[k], lvl) == k, 'wide.add_var_level')
+            require(A.add_var(names[k]) == k, 'wide.add_var')
+            A.declare(names[k], names[(k * 7) % N])
+            if k + 1 < N:
+                try:
+                    A.add_var(names[k], int(str(k + 1)))
+                except ValueError:
+                    pass
+                else:
+                    raise Violation('wide.conflict_accepted', dict(k=k))
+        bijection(A, names)
+        # copy_vars between managers that declare the same names
+        T = _ar.BDD() if ar else fix.new_bdd([])
+        if ar:
+            T._bdd.__class__ = type(fix.new_bdd([]))
+        T.declare(*names[:N // 2])
+        if ar:
+            _ar.copy_vars(A, T)
+        else:
+            _copy.copy_vars(A, T)
+        bijection(T, names)
+        _copy.copy_vars(A, T)
+        bijection(T, names)
+        # functions over high levels, swaps up there, removal of unused
+        # variables below and above
+        xs = [names[5], names[N - 10], names[N - 2], names[N - 1]]
+        s_ = (f'({xs[0]} /\\ ~ {xs[1]}) \\/ ({xs[2]} # {xs[3]}) \\/ '
+              f'(~ {xs[0]} /\\ {xs[3]})')
+        f = A.add_expr(s_)
+        if not ar:
+            b.incref(f)
+        u = f.node if ar else f
+
+        def same(what):
+            for vals in itertools.product((False, True), repeat=4):
+                a = dict.fromkeys(b.vars, False)
+                a.update(zip(xs, vals))
+                x0, x1, x2, x3 = vals
+                want = (x0 and not x1) or (x2 != x3) or (not x0 and x3)
+                require(_eval(b, u, a) == want, 'wide.function_changed',
+                        dict(after=what))
+            inv.check_order(b)
+            inv.check_structure(b)
+        same('build')
+        b.swap(N - 2, N - 1)
+        same('swap at the bottom')
+        b.swap(N - 2, N - 1)
+        if not ar:
+            gone = [names[100], names[N - 5], names[260]]
+            removed = b.undeclare_vars(*gone)
+            require(set(removed) == set(gone), 'wide.undeclare')
+            rest = [x for x in names if x not in gone]
+            bijection(b, rest)
+            same('undeclare')
+            b.declare(*gone)
+            bijection(b, rest + gone)
+            same('declare again')
+        # pickle into a manager that already declares the variables
+        fname = os.path.join(os.getcwd(), 'Wide.p')
+        order_now = sorted(b.vars, key=b.vars.get)
+        C = _ar.BDD() if ar else fix.new_bdd([])
+        cb = C._bdd if ar else C
+        if ar:
+            cb.__class__ = type(fix.new_bdd([]))
+        C.declare(*order_now)
+        A.dump(fname, roots=[f])
+        try:
+            back = C.load(fname)
+        finally:
+            os.remove(fname)
+        g = back[0]
+        gu = g.node if ar else g
+        for vals in itertools.product((False, True), repeat=4):
+            a = dict.fromkeys(cb.vars, False)
+            a.update(zip(xs, vals))
+            x0, x1, x2, x3 = vals
+            want = (x0 and not x1) or (x2 != x3) or (not x0 and x3)
+            require(_eval(cb, gu, a) == want, 'wide.loaded_function')
+        bijection(C, order_now)
+    out.guard(case, body)
+    out.count(1, 1)
+    out.sample(case)
+
+
 def run(spec, out):
+    if spec['kind'] == 'wide':
+        return run_wide(spec, out)
     if spec['kind'] == 'random':
         H.run_random(spec, out, ALPHA, nontrivial)
     else:
         H.run_exhaustive(spec, out, nontrivial)
 
 
-replay_into = H.replay_into
+def replay_into(case, out):
+    if case.get('kind') == 'wide':
+        return run_wide(case, out)
+    return H.replay_into(case, out)
